@@ -125,25 +125,33 @@ def parsePosition (F : Factors) (m : Meta) (e : Epoch) (vs : List (String × Str
   let cs ← sig "sig_clk_bias" baseClk (F.ps2s * F.c)
   pure ⟨e, sat, pos, clk, ps, cs, sat.take 1⟩
 
-/-- one epoch block (its lines, rstripped, the first one being the `*` line).
-`seen` = epochs already in `data["time"]` (the duplicate-epoch guard on the block's second line). -/
+/-- one line of an epoch block after the `*` line.  `second = true` for the block's second line
+(`cache["line_num"] == 2`), where an epoch that is already in `data["time"]` makes the parser drop
+that one record. `e?` is the epoch of the block's `*` line. -/
+def stepLine (F : Factors) (m : Meta) (recP : Layout) (e? : Option Epoch) (second : Bool)
+    (acc : List Entry) (line : Str) : Option (List Entry) :=
+  if line.take 1 = ['P'] then
+    match e? with
+    | Option.none => Option.none                               -- `cache["time"]` KeyError
+    | some e =>
+      if second ∧ acc.any (·.epoch = e) then some acc
+      else (parsePosition F m e (sliceAll recP line)).map fun en => acc ++ [en]
+  else if line.isEmpty then Option.none                        -- `line[0]` IndexError
+  else some acc                                                -- V, EP, EV, EOF, … : ignored
+
+/-- one epoch block (its lines, rstripped, the first one being the `*` line) -/
 def parseBlock (F : Factors) (m : Meta) (epochFields : List (Option String)) (recP : Layout)
-    (acc : List Entry) (block : List Str) : Option (List Entry) := do
+    (acc : List Entry) (block : List Str) : Option (List Entry) :=
   match block with
-  | [] => pure acc
+  | [] => some acc
   | l1 :: rest =>
     -- a block always starts with the line that made the previous one end, i.e. a `*` line
-    let e? : Option Epoch ← (if l1.take 1 = ['*'] then (parseDate epochFields (strip l1)).map some else some Option.none)
-    let numbered := (List.range rest.length).zip rest
-    numbered.foldlM (fun acc (i, line) =>
-      if line.take 1 = ['P'] then
-        match e? with
-        | Option.none => Option.none                       -- `cache["time"]` KeyError
-        | some e =>
-          if i = 0 ∧ acc.any (·.epoch = e) then some acc    -- line_num == 2, epoch already present
-          else (parsePosition F m e (sliceAll recP line)).map fun en => acc ++ [en]
-      else if line.isEmpty then Option.none                  -- `line[0]` IndexError
-      else some acc) acc
+    match (if l1.take 1 = ['*'] then (parseDate epochFields (strip l1)).map some else some Option.none) with
+    | Option.none => Option.none
+    | some e? =>
+      match rest with
+      | [] => some acc
+      | l2 :: more => (stepLine F m recP e? true acc l2).bind fun a => more.foldlM (stepLine F m recP e? false) a
 
 /-- split the lines after the header into blocks: a block ends before a line starting with `*` -/
 def splitBlocksAux : List Str → List Str → List (List Str)
